@@ -30,6 +30,7 @@ type proxySeen struct {
 	Connect bool
 	Has     bool
 	Values  []string
+	Tunnel  string // X-Tunnel header (from the static ProxyConnectHeader) as received
 }
 
 // pctDecode: independent percent-decoding of a userinfo component (RFC 3986 2.1)
@@ -83,7 +84,7 @@ func c20Proxy(r *hk.Run, rng *hk.Rand) {
 	proxy := &http.Server{Handler: http.HandlerFunc(func(w http.ResponseWriter, q *http.Request) {
 		vs := q.Header.Values("Proxy-Authorization")
 		mu.Lock()
-		seen = append(seen, proxySeen{Step: step, Connect: q.Method == "CONNECT", Has: len(vs) > 0, Values: append([]string(nil), vs...)})
+		seen = append(seen, proxySeen{Step: step, Connect: q.Method == "CONNECT", Has: len(vs) > 0, Values: append([]string(nil), vs...), Tunnel: q.Header.Get("X-Tunnel")})
 		mu.Unlock()
 		if q.Method != "CONNECT" {
 			w.Header().Set("Content-Type", "text/plain")
@@ -165,6 +166,20 @@ func c20Proxy(r *hk.Run, rng *hk.Rand) {
 	for s := 0; s < nSeq; s++ {
 		c := req.C().EnableInsecureSkipVerify()
 		c.GetTransport().TLSClientConfig = &tls.Config{InsecureSkipVerify: true}
+		// Transport.ProxyConnectHeader: absent / static extra header / static header that itself
+		// carries a Proxy-Authorization (used when the proxy URL has no userinfo)
+		var static http.Header
+		staticPA := ""
+		switch rng.Intn(4) {
+		case 0:
+			static = http.Header{"X-Tunnel": {fmt.Sprintf("seq%d", s)}}
+		case 1:
+			staticPA = "Basic " + stdB64("static-user:static-pw")
+			static = http.Header{"X-Tunnel": {fmt.Sprintf("seq%d", s)}, "Proxy-Authorization": {staticPA}}
+		}
+		if static != nil {
+			c.GetTransport().SetProxyConnectHeader(static)
+		}
 		type stepRec struct {
 			user, pass     string
 			hasUI, hasPass bool
@@ -186,6 +201,9 @@ func c20Proxy(r *hk.Run, rng *hk.Rand) {
 			switch kk := rng.Intn(10); {
 			case k == 0:
 				st.kind = "first"
+			case static != nil && kk < 3:
+				st.hasUI = false
+				st.kind = "no-userinfo"
 			case kk < 4:
 				pass, _ = genCred(rng, true) // the password is rotated, same user, same proxy
 				if rng.Chance(30) {
@@ -226,7 +244,7 @@ func c20Proxy(r *hk.Run, rng *hk.Rand) {
 				}
 				st.text = pu.String()
 			}
-			st.https = rng.Chance(30)
+			st.https = rng.Chance(30) || (static != nil && rng.Chance(60))
 			mu.Lock()
 			step++
 			my := step
@@ -283,7 +301,15 @@ func c20Proxy(r *hk.Run, rng *hk.Rand) {
 			}
 			var vals []string
 			for _, o := range st.obs {
+				if o.Connect && static != nil && o.Tunnel != static.Get("X-Tunnel") {
+					r.Fail(hk.Failure{Sig: "proxy:connect-header-lost", What: "the static ProxyConnectHeader did not reach the proxy on CONNECT", Input: in, Got: o.Tunnel})
+				}
 				switch {
+				case !st.hasUI && o.Connect && staticPA != "":
+					// no credentials in the URL: the caller's static Proxy-Authorization applies
+					if !o.Has || len(o.Values) != 1 || o.Values[0] != staticPA {
+						r.Fail(hk.Failure{Sig: "proxy:static-credentials:" + st.kind, What: "CONNECT through a proxy URL without userinfo must carry the Proxy-Authorization of the static ProxyConnectHeader", Input: in, Got: o.Values})
+					}
 				case !st.hasUI && o.Has:
 					r.Fail(hk.Failure{Sig: "proxy:stale-credentials:" + tgt + ":" + st.kind, What: "the proxy URL has no userinfo but a Proxy-Authorization was sent", Input: in, Got: o.Values})
 				case st.hasUI && (!o.Has || len(o.Values) != 1):
@@ -326,11 +352,16 @@ func c20Proxy(r *hk.Run, rng *hk.Rand) {
 				nontrivial = true
 			}
 		}
+		if static != nil && static.Get("Proxy-Authorization") != staticPA {
+			r.Fail(hk.Failure{Sig: "proxy:connect-header-mutated", What: "the caller's ProxyConnectHeader map was modified by the transport",
+				Input: map[string]interface{}{"sequence": s, "urls": key}, Got: static.Get("Proxy-Authorization"), Want: staticPA})
+		}
 		if len(rs) != len(steps) {
 			continue // a failed step: reported above
 		}
+		r.Count(fmt.Sprintf("proxy.connect-header=%v/static-auth=%v", static != nil, staticPA != ""))
 		r.Count("proxy.sequences")
-		r.Add(hk.Case{Coq: fmt.Sprintf("ProxySeqCase %s %s %s", hk.CoqList(rs), hk.CoqList(texts), hk.CoqList(obsC)),
+		r.Add(hk.Case{Coq: fmt.Sprintf("ProxySeqCase %s %s %s %s", hk.CoqOpt(staticPA != "", pks(staticPA)), hk.CoqList(rs), hk.CoqList(texts), hk.CoqList(obsC)),
 			Desc: map[string]interface{}{"kind": "proxy-seq", "steps": len(steps), "urls": key}}, "proxyseq"+key, nontrivial)
 	}
 }
